@@ -1,6 +1,6 @@
 \* C10 exhaustive: one thread, every detach order on stacks up to depth 7 (crosses the 2 -> 6 -> 14
 \* reallocation steps of the real array)
-CONSTANTS NT = 1  NK = 1  NV = 1  NS = 1  MaxCtx = 2  MaxSet = 1  MaxDepth = 7  MaxMap = 1  MaxDrop = 0
+CONSTANTS NT = 1  NK = 1  NV = 1  NS = 1  MaxCtx = 2  MaxSet = 1  MaxDepth = 7  MaxMap = 1  MaxDrop = 0  WithEmpty = FALSE
           GenDepth = 0  DeepTarget = 99  Hist = FALSE  KeepFlags = FALSE  Dev = {}
 INIT Init
 NEXT Next
